@@ -94,14 +94,11 @@ func (d *Data) sortByBlockCoord(pts []dvid.Point3d) blockPtsSlice {
 	blockPts := make(blockPtsSlice, 0, indexStartSize)
 	blockSize := d.BlockSize().(dvid.Point3d)
 	for origPos, pt := range pts {
-		// Autogenerated.
-		x := pt[0] / blockSize[0]
-		y := pt[1] / blockSize[1]
-		z := pt[2] / blockSize[2]
-		bx := pt[0] % blockSize[0]
-		by := pt[1] % blockSize[1]
-		bz := pt[2] % blockSize[2]
-		bcoord := dvid.ChunkPoint3d{x, y, z}.ToIZYXString()
+		// Use floor division so points with negative coordinates land in the right block.
+		chunkPt := pt.Chunk(blockSize).(dvid.ChunkPoint3d)
+		inBlock := pt.PointInChunk(blockSize).(dvid.Point3d)
+		bx, by, bz := inBlock[0], inBlock[1], inBlock[2]
+		bcoord := chunkPt.ToIZYXString()
 		i, found := blockIndex[bcoord]
 		if found {
 			blockPts[i].pts = append(blockPts[i].pts, dvid.Point3d{bx, by, bz})
